@@ -4,6 +4,7 @@ package server
 
 import (
 	"encoding/binary"
+	"encoding/json"
 
 	"github.com/dgraph-io/badger/v4"
 )
@@ -66,4 +67,139 @@ func (ds *Dataset) VerifChangeKeys() (seqs []uint64, rids []uint64) {
 		return nil
 	})
 	return
+}
+
+// VerifInjectDuplicate stores a new version of an entity that is identical (properties,
+// references, deleted flag) to its current latest version, with version, change-log, latest and
+// reference-index keys written the way datahub versions without write-time deduplication did.
+// It returns false if the entity has no version in the dataset.
+func (ds *Dataset) VerifInjectDuplicate(curie string, txnTime int64) (bool, error) {
+	s := ds.store
+	rid, ok := s.VerifIDForURI(curie)
+	if !ok {
+		return false, nil
+	}
+	latestKey := make([]byte, 14)
+	binary.BigEndian.PutUint16(latestKey, DatasetLatestEntities)
+	binary.BigEndian.PutUint32(latestKey[2:], ds.InternalID)
+	binary.BigEndian.PutUint64(latestKey[6:], rid)
+	var cur []byte
+	err := s.database.View(func(txn *badger.Txn) error {
+		it, err := txn.Get(latestKey)
+		if err != nil {
+			return err
+		}
+		vk, err := it.ValueCopy(nil)
+		if err != nil {
+			return err
+		}
+		ei, err := txn.Get(vk)
+		if err != nil {
+			return err
+		}
+		cur, err = ei.ValueCopy(nil)
+		return err
+	})
+	if err == badger.ErrKeyNotFound {
+		return false, nil
+	}
+	if err != nil {
+		return false, err
+	}
+	e := &Entity{}
+	if err := json.Unmarshal(cur, e); err != nil {
+		return false, err
+	}
+	e.Recorded = uint64(txnTime)
+	jsonData, _ := json.Marshal(e)
+	seqKey := make([]byte, 6)
+	binary.BigEndian.PutUint16(seqKey, SysDatasetsSequences)
+	binary.BigEndian.PutUint32(seqKey[2:], ds.InternalID)
+	seq, err := s.database.GetSequence(seqKey, 1000)
+	if err != nil {
+		return false, err
+	}
+	defer seq.Release()
+	next, err := seq.Next()
+	if err != nil {
+		return false, err
+	}
+	ds.WriteLock.Lock()
+	defer ds.WriteLock.Unlock()
+	idCache := map[string]uint64{}
+	err = s.database.Update(func(txn *badger.Txn) error {
+		vkey := make([]byte, 24)
+		binary.BigEndian.PutUint16(vkey, EntityIDToJSONIndexID)
+		binary.BigEndian.PutUint64(vkey[2:], rid)
+		binary.BigEndian.PutUint32(vkey[10:], ds.InternalID)
+		binary.BigEndian.PutUint64(vkey[14:], uint64(txnTime))
+		if err := txn.Set(vkey, jsonData); err != nil {
+			return err
+		}
+		ckey := make([]byte, 22)
+		binary.BigEndian.PutUint16(ckey, DatasetEntityChangeLog)
+		binary.BigEndian.PutUint32(ckey[2:], ds.InternalID)
+		binary.BigEndian.PutUint64(ckey[6:], next)
+		binary.BigEndian.PutUint64(ckey[14:], rid)
+		if err := txn.Set(ckey, vkey); err != nil {
+			return err
+		}
+		if err := txn.Set(latestKey, vkey); err != nil {
+			return err
+		}
+		for k, v := range e.References {
+			var refs []string
+			switch t := v.(type) {
+			case string:
+				refs = []string{t}
+			case []interface{}:
+				for _, x := range t {
+					if sx, ok := x.(string); ok {
+						refs = append(refs, sx)
+					}
+				}
+			}
+			for _, ref := range refs {
+				pid, _, err := s.assertIDForURI(k, idCache)
+				if err != nil {
+					return err
+				}
+				oid, _, err := s.assertIDForURI(ref, idCache)
+				if err != nil {
+					return err
+				}
+				del := uint16(0)
+				if e.IsDeleted {
+					del = 1
+				}
+				out := make([]byte, 40)
+				binary.BigEndian.PutUint16(out, OutgoingRefIndex)
+				binary.BigEndian.PutUint64(out[2:], rid)
+				binary.BigEndian.PutUint64(out[10:], uint64(txnTime))
+				binary.BigEndian.PutUint64(out[18:], pid)
+				binary.BigEndian.PutUint64(out[26:], oid)
+				binary.BigEndian.PutUint16(out[34:], del)
+				binary.BigEndian.PutUint32(out[36:], ds.InternalID)
+				in := make([]byte, 40)
+				binary.BigEndian.PutUint16(in, IncomingRefIndex)
+				binary.BigEndian.PutUint64(in[2:], oid)
+				binary.BigEndian.PutUint64(in[10:], rid)
+				binary.BigEndian.PutUint64(in[18:], uint64(txnTime))
+				binary.BigEndian.PutUint64(in[26:], pid)
+				binary.BigEndian.PutUint16(in[34:], del)
+				binary.BigEndian.PutUint32(in[36:], ds.InternalID)
+				if err := txn.Set(out, []byte("")); err != nil {
+					return err
+				}
+				if err := txn.Set(in, []byte("")); err != nil {
+					return err
+				}
+			}
+		}
+		return nil
+	})
+	if err != nil {
+		return false, err
+	}
+	return true, s.commitIDTxn()
 }
